@@ -45,6 +45,23 @@ CHECKS = {
    note=TB + "Hypotheses as for C02; 'another message' is reflected as another value of H(m) (hash collisions excluded by hypothesis).",
    technique="Coq proof (invariant: collected entries are valid, distinct, in range) + differential correspondence",
    ref="5/C03"),
+ "C13": dict(
+   text="Coq theorems over the Gallina model of DosNode.queryLoop (Models/QueryLoop.v): for EVERY event sequence (arrivals, "
+        "registrations, cancellations, watchdog sweeps, any interleaving, any number of requests) the shares handed to a "
+        "never-cancelled request are exactly the arrivals for its id, each once, in arrival order, wherever its registration falls "
+        "(C13_exactly_once, by an invariant over the event list); a delivered share always arrived for an id its receiver "
+        "registered (C13_no_crossover); deleting all events of other requests changes nothing for this one (C13_frame). The "
+        "pre-repair map lookup is refuted by the witness [Peer \"\" s]. Tie: the REAL loop is driven through the dosnode verif "
+        "constructor over an in-memory p2p double with unbuffered channels (events serialised), exhaustively for all sequences of "
+        "<= 4 events over 2 ids and <= 3 over 3 ids (thorough: 6 / 5) incl. the empty request id, plus random sequences with "
+        "duplicate deliveries; result classes deliveries / panic / wedged are compared with the extracted model and with an "
+        "independent judge.",
+   note=TB + "Environment assumption (stated in the model): a live request's reader takes every offered share; a cancelled "
+        "request has no reader. The 30-minute watchdog branch is in the model and the theorems but cannot be fired by the harness "
+        "(ticker created inside the loop). Wall-clock bounds are not modelled; a wedged loop is detected by a 1.5 s per-event timeout.",
+   technique="Coq proof (state invariant by induction over the event list, refinement to `filter arrivals`) + exhaustive "
+             "small-scope correspondence against the real event loop",
+   ref="5/C13"),
  "C15": dict(
    text="Coq theorems over the Gallina model of writeTo/readFrom (Models/Framing.v) where a connection is an arbitrary list of "
         "chunks: for every list of payloads of 1..2^20 bytes and EVERY chunking of the concatenated frames the reader returns "
